@@ -6,5 +6,5 @@ cd "$(dirname "$0")"
 for p in C19 C10 C03 C09 C07 C08 C12 C13 C04 C20; do
   echo "=== $p VERIF_SEED=$seed tier=thorough budget=${budget}s"
   VERIF_SEED=$seed VERIF_BUDGET_S=$budget VERIF_WORKERS=${VERIF_WORKERS:-8} ./check $p --tier thorough 2>&1 | grep -v "^KNOWN-FINDING" | tail -6
-  echo "exit=$?"
+  echo "exit=${PIPESTATUS[0]}"
 done
